@@ -116,6 +116,24 @@ macro_rules! ensure_eq {
     };
 }
 
+/// `ensure_eq!` for values of the code's own enum / struct types: equal by the type's `PartialEq` AND by their Debug
+/// rendering, so that a hand-written `PartialEq` (which may equate different variants) cannot satisfy the oracle.
+#[macro_export]
+macro_rules! ensure_same {
+    ($a:expr, $b:expr, $sig:expr, $($arg:tt)*) => {
+        match (&$a, &$b) {
+            (a, b) => {
+                if a != b || format!("{:?}", a) != format!("{:?}", b) {
+                    return Err($crate::runner::Fail::new(
+                        $sig,
+                        format!("{}: {} = {:?} but expected {:?} (compared by == and by Debug rendering)", format!($($arg)*), stringify!($a), a, b),
+                    ));
+                }
+            }
+        }
+    };
+}
+
 // ---------------------------------------------------------------------------------------------
 // Panic capture
 // ---------------------------------------------------------------------------------------------
